@@ -225,7 +225,7 @@ class State(_train.Listener):
             Xb = X[j:j + bs]
             Pw = clf.predict_proba(Xb)
             ctx.count("path_validation_blocks")
-            if P.shape != Pw.shape or not np.allclose(P, Pw, rtol=0, atol=1e-12):
+            if P.shape != Pw.shape or not np.allclose(P, Pw, rtol=0, atol=1e-12, equal_nan=True):
                 ctx.violation("path-validation", "validation-predictions-not-consecutive-block", observed={"block": b},
                               expected="predict_proba(X[j:j+bs])")
             if y is not None:
